@@ -1,12 +1,13 @@
 import ZChain.Drv.Util
 import ZChain.Model.RoundBlocks
+import ZChain.Model.NodePools
 /-! Line driver for C35 (miner ranks + per-round block lists).
-`new <minGenerators>` | `addm <id64> <pk>` | `pos` | `seed <seed> <perm…>` | `seednb <seed> <perm…>` |
+`new <minGenerators>` | `addm <id64> <pk>` | `obj <o> <id64> <pk>` | `padd <pool> <o>` | `pos` | `seed <seed> <perm…>` | `seednb <seed> <perm…>` |
 `cseed <seed> <perm…>` | `rank <id64>` | `ranks` | `byrank` | `isgen <id64>` | `gens` |
 `blk <obj> <hash> <rank> <t1,t2,…|->` | `addn <obj>` | `upd <obj>` | `addp <obj>` | `nbs` | `pbs` | `best` |
 `heaviest` | `tix <obj>` -/
 namespace ZChain.Drv.C35
-open ZChain.NodePool ZChain.RoundBlocks
+open ZChain.NodePool ZChain.RoundBlocks ZChain.NodePools
 
 def hexVal (c : Char) : Option Nat :=
   if '0' ≤ c ∧ c ≤ '9' then some (c.toNat - '0'.toNat)
@@ -29,11 +30,23 @@ def parseId (s : String) : Option Node :=
 
 structure S where
   mingen : Int
-  pool   : List Node
+  w      : World          -- pool 0 = the miners of the magic block; node objects may also sit in side pools
+  next   : Nat
   ranks  : Ranks
   st     : St
 
-def init (g : Int) : S := { mingen := g, pool := [], ranks := { perm := none, seed := 0 }, st := empty }
+def init (g : Int) : S := { mingen := g, w := emptyWorld, next := 1000000, ranks := { perm := none, seed := 0 }, st := empty }
+
+/-- the `SetIndex` each pool-0 node object carries, in pool order. -/
+def idxs (s : S) : List Nat := (poolNodes s.w 0).map (fun o => (getObj s.w o).setIndex)
+
+/-- `SetIndex` of the pool-0 object with this key. -/
+def idxOfKey (s : S) (key : Nat) : Option Nat :=
+  match (poolNodes s.w 0).find? (fun o => (nodeOf s.w o).key = key) with
+  | some o => some (getObj s.w o).setIndex
+  | none => none
+
+def knownObj (s : S) (o : Nat) : Bool := (objGet s.w.objs o).isSome
 
 def parseInts : List String → Option (List Int)
   | [] => some []
@@ -50,7 +63,7 @@ def parseTickets (s : String) : Option (List Nat) :=
 def numGen (s : S) : Int := if s.mingen > 0 then s.mingen else 0
 
 def keysDistinct (s : S) : Bool :=
-  let ks := (List.range s.pool.length).map (byRankKey s.ranks)
+  let ks := (idxs s).map (byRankKey s.ranks)
   ks.eraseDups.length = ks.length
 
 def showObjs (s : S) (tag : String) (l : List Nat) : String :=
@@ -71,9 +84,15 @@ def step (s : S) (ws : List String) : S × String :=
     | some g => (init g, "ok")
     | none => (s, "bad-op")
   | ["addm", id, _pk] => match parseId id with
-    | some nd => ({ s with pool := addNode s.pool nd }, "ok")
+    | some nd => ({ s with w := addNodeW (newObj s.w s.next nd) 0 s.next, next := s.next + 1 }, "ok")
     | none => (s, "bad-op")
-  | ["pos"] => (s, " ".intercalate ("pos" :: s.pool.map (fun nd => s!"{nd.key}")))
+  | ["obj", o, id, _pk] => match o.toNat?, parseId id with
+    | some o, some nd => if o < 1000000 ∧ ¬ knownObj s o then ({ s with w := newObj s.w o nd }, "ok") else (s, "bad-op")
+    | _, _ => (s, "bad-op")
+  | ["padd", p, o] => match p.toNat?, o.toNat? with
+    | some p, some o => if p < 8 ∧ knownObj s o then ({ s with w := addNodeW s.w p o }, "ok") else (s, "bad-op")
+    | _, _ => (s, "bad-op")
+  | ["pos"] => (s, " ".intercalate ("pos" :: (poolNodes s.w 0).map (fun o => s!"{(nodeOf s.w o).key}:{(getObj s.w o).setIndex}")))
   | "seed" :: sd :: perm => match sd.toInt?, parseInts perm with
     | some sd, some p => ({ s with ranks := setRandomSeed s.ranks sd p }, "ok")
     | _, _ => (s, "bad-op")
@@ -84,21 +103,21 @@ def step (s : S) (ws : List String) : S × String :=
     | some sd, some p => let (s', b) := chainSetRandomSeed s sd p; (s', if b then "true" else "false")
     | _, _ => (s, "bad-op")
   | ["rank", id] => match parseId id with
-    | some nd => (s, match setIndexOf s.pool nd.key with
+    | some nd => (s, match idxOfKey s nd.key with
         | some i => s!"rank {getMinerRank s.ranks i}"
         | none => "nomember")
     | none => (s, "bad-op")
-  | ["ranks"] => (s, " ".intercalate ("ranks" :: (List.range s.pool.length).map (fun i => toString (getMinerRank s.ranks i))))
+  | ["ranks"] => (s, " ".intercalate ("ranks" :: (idxs s).map (fun i => toString (getMinerRank s.ranks i))))
   | ["byrank"] =>
-    (s, if keysDistinct s then " ".intercalate ("byrank" :: (getMinersByRank s.ranks s.pool.length).map toString)
+    (s, if keysDistinct s then " ".intercalate ("byrank" :: (getMinersByRankIdx s.ranks (idxs s)).map toString)
         else "ambiguous")
   | ["isgen", id] => match parseId id with
-    | some nd => (s, match setIndexOf s.pool nd.key with
+    | some nd => (s, match idxOfKey s nd.key with
         | some i => if isRoundGenerator s.ranks i (numGen s) then "true" else "false"
         | none => "nomember")
     | none => (s, "bad-op")
   | ["gens"] =>
-    (s, if keysDistinct s then " ".intercalate ("gens" :: (getGenerators s.ranks s.pool.length (numGen s)).map toString)
+    (s, if keysDistinct s then " ".intercalate ("gens" :: (getGeneratorsIdx s.ranks (idxs s) (numGen s)).map toString)
         else "ambiguous")
   | ["blk", o, h, r, t] => match o.toNat?, h.toNat?, r.toInt?, parseTickets t with
     | some o, some h, some r, some t =>
